@@ -277,8 +277,7 @@ public:
         element_type* p = nullptr;
         __TBB_ASSERT(my_key, "Error: value-to-key functor not provided");
         if(find_element_ref_with_key(tbb::detail::invoke(*my_key, v), p)) {
-            p->destroy_element();
-            p->create_element(v, std::forward<Args>(args)...);
+            // a duplicate is rejected: the element already stored for the key is left untouched
             return false;
         }
         ++nelements;
